@@ -32,6 +32,7 @@ class Report:
         self.seed = seed
         self.t0 = time.time()
         self.functions = []        # per function under contract
+        self.bindings = {}         # function -> binding-site names (recorded in the baseline: renamed locals keep their contracts)
         self.obligations = []      # per obligation result
         self.undecided = []        # strings
         self.violations = []       # dicts: obligation, scenario, detail, standin
@@ -52,6 +53,7 @@ class Report:
         for g in gens:
             self.functions.append(dict(name=g['name'], obligations=len(g['obls']), paths=g['paths'],
                                        hash=g['hash'], error=g['error']))
+            self.bindings[g['name']] = g.get('bindings')
             self.dropped.extend(g['dropped'])
             if g['error']:
                 self.undecided.append('%s: out of subset: %s' % (g['name'], g['error']))
@@ -335,6 +337,8 @@ def write_baseline(reports):
         for f in rep.functions:
             base.setdefault(f['name'], {})
             base[f['name']].update(hash=f['hash'])
+            if rep.bindings.get(f['name']) is not None:
+                base[f['name']]['bindings'] = rep.bindings[f['name']]
             base[f['name']].setdefault('obligations', {})
             base[f['name']].setdefault('solver', {})
         for r in rep.obligations:
